@@ -12,7 +12,7 @@ SPEC = {
     "assumptions": [
         "only command shapes real senders produce; index groups are deleted/pruned only when no live shard group refers to them and CancelDelete revives a group only when no live group covers its span (models of the retention service and of 'recall data')",
         "ReShardingCommand and ReplaceMergeShardsCommand are outside the mix: they create overlapping / merged spans by design",
-        "known-finding classes are kept out of the main campaigns by construction and are shown by replays/C16/*.json; in the enumeration the invariant 'disjoint' is tolerated (and counted) for sequences that change the shard duration",
+        "one known-finding class is open (overlapping groups after a shard-duration change, replays/C16/overlap_after_shard_duration_change.json): the main campaigns do not alter the shard duration of a policy that holds shard groups (counted), and in the enumeration the invariant 'disjoint' is tolerated (and counted) for sequences that change the shard duration; the other replays are regression cases of repaired defects",
     ],
     "exhaustive_note": "campaign 'exhaustive': every sequence of length <= 4 (quick) / <= 5 (thorough) over the 12-command alphabet of props/c16/exhaustive_test.go from one fixed start state",
     "campaigns": [
